@@ -88,4 +88,16 @@ OBLIGATIONS = {
         "C04.exponential_bounds", "C04.piecewise_range", "C04.piecewise_monotone", "C04.piecewise_hits_knots",
         "C04.mapM_length", "C04.generators_length", "InterpLemmas.interp_mono",
     ],
+    "C03": [
+        "C03.fold_in_triangle", "C03.bary_convex", "C03.sample_in_halfplanes", "C03.bary_between", "C03.triArea_nonneg",
+        "C03.triArea_swap", "C03.pick_in_range", "C03.sample_in_chosen_triangle", "C03.point_exact",
+        "C03.metric_deg_inverse", "C03.deg_metric_inverse", "SampleLemmas.searchsorted_spec",
+        "SampleLemmas.searchsorted_lt_length",
+    ],
+    "C17": [
+        "C17.normCum_pairwise", "C17.pick_interval", "C17.pick_interval_length", "C17.pick_interval_length_zero",
+        "C17.normCum_last", "C17.fold_preimages", "C17.fold_reflection_involutive", "C17.bary_det", "C17.bary_injective",
+        "C17.triangle_areas_abs", "C04.range_values", "C04.range_in_range", "SampleLemmas.searchsorted_eq_iff",
+        "SampleLemmas.cumsum_get_succ",
+    ],
 }
